@@ -8,7 +8,7 @@ open Atomman Atomman.C10
     unit  := <unit string | -> <fW> <fR>        (factor under the writing / reading working units)
     uc    <via> unit arr
     box   <via> unit <12 rationals: a b c origin>
-    atoms <via> <natoms> <nprops> {<name> unit arr}*
+    atoms <via> <natoms> <nprops> {<name> unit arr}* [sel <k> {<name> unit}*]   (selection = the prop_unit dict)
     sys   <via> unit(box) <12 rationals> <3 pbc> <nsym> {sym|-}* <nmass> {mass|-}* <natoms> <nprops> {<name> unit arr}*
     ec    <via> unit <36 C> <36 normalized C>
     nest  <rank> <dims…> <data…>
@@ -79,6 +79,11 @@ def pProp : P (String × UnitSpec × Arr Rat) := fun ts =>
     match pUnit r with
     | none => none
     | some (u, r1) => (pArr r1).map (fun (a, r2) => ((name, u, a), r2))
+  | _ => none
+
+def pSel : P (String × UnitSpec) := fun ts =>
+  match ts with
+  | name :: r => (pUnit r).map (fun (u, r1) => ((name, u), r1))
   | _ => none
 
 def pOpt : P (Option String) := fun ts =>
@@ -206,6 +211,17 @@ def handleC10 (toks : List String) : String :=
         let (fw, fr) := facTabs props []
         let a : AtomsM Rat := ⟨n, props.map (fun (nm, _, arr) => (nm, arr))⟩
         reply via (atomsModel fw (props.map (fun (nm, u, _) => (nm, u.unit))) a) (atomsRead fr) jAtoms
+      | some (props, "sel" :: k :: r2) =>
+        -- Atoms.model(prop_unit=…) with a selection of the properties, in the given order
+        match k.toNat? with
+        | none => err "format"
+        | some k =>
+          match pMany pSel k r2 with
+          | some (sel, []) =>
+            let (fw, fr) := facTabs (sel.map (fun (nm, u) => (nm, u, (⟨[], .flt []⟩ : Arr Rat)))) []
+            let a : AtomsM Rat := ⟨n, props.map (fun (nm, _, arr) => (nm, arr))⟩
+            reply via (atomsModel fw (sel.map (fun (nm, u) => (nm, u.unit))) a) (atomsRead fr) jAtoms
+          | _ => err "format"
       | _ => err "format"
     | _, _ => err "format"
   | "sys" :: via :: r =>
